@@ -78,7 +78,7 @@ func (d Directive) String() string {
 // zeroMeetsMinus: the directive combines the zero flag with a minus flag
 // (written, or produced by a negative star width) - semantics changed across Go releases.
 func (d Directive) zeroMeetsMinus() bool {
-	if d.Flags&16 == 0 {
+	if d.Flags&16 == 0 && widths[d.Wid].Text != "0" { // a width written "0" is parsed as the zero flag
 		return false
 	}
 	return d.Flags&2 != 0 || (widths[d.Wid].Star && widths[d.Wid].Arg < 0)
